@@ -45,6 +45,7 @@ type LoopContract struct {
 	Invs    []*Clause
 	Decr    *Clause
 	Line    int
+	Havoc   []string // heaps to havoc wholesale at this loop head (the body writes pre-existing objects found while iterating)
 }
 
 type FuncContract struct {
@@ -86,10 +87,72 @@ func mangle(name string) string {
 	return r.Replace(name)
 }
 
-// expandSugar rewrites  A ==> B  into  !(A) || (B)  (right associative, top level only).
+// expandSugar rewrites  A ==> B  into  !(A) || (B)  (right associative), also inside parentheses and braces.
 func expandSugar(e string) string {
-	depth := 0
+	if !strings.Contains(e, "==>") {
+		return e
+	}
+	// first expand inside every bracketed group
+	var sb strings.Builder
 	inStr := byte(0)
+	for i := 0; i < len(e); i++ {
+		c := e[i]
+		if inStr != 0 {
+			sb.WriteByte(c)
+			if c == '\\' && i+1 < len(e) {
+				i++
+				sb.WriteByte(e[i])
+			} else if c == inStr {
+				inStr = 0
+			}
+			continue
+		}
+		switch c {
+		case '"', '\'', '`':
+			inStr = c
+			sb.WriteByte(c)
+		case '(', '{', '[':
+			close := map[byte]byte{'(': ')', '{': '}', '[': ']'}[c]
+			depth := 1
+			j := i + 1
+			js := byte(0)
+			for ; j < len(e) && depth > 0; j++ {
+				d := e[j]
+				if js != 0 {
+					if d == '\\' {
+						j++
+					} else if d == js {
+						js = 0
+					}
+					continue
+				}
+				if d == '"' || d == '\'' || d == '`' {
+					js = d
+				} else if d == c {
+					depth++
+				} else if d == close {
+					depth--
+				}
+			}
+			inner := e[i+1 : j-1]
+			if c == '{' {
+				// a function literal body: "return X" statements
+				inner = expandReturns(inner)
+			} else {
+				inner = expandSugar(inner)
+			}
+			sb.WriteByte(c)
+			sb.WriteString(inner)
+			sb.WriteByte(close)
+			i = j - 1
+		default:
+			sb.WriteByte(c)
+		}
+	}
+	e = sb.String()
+	// then the top level of this string
+	depth := 0
+	inStr = 0
 	for i := 0; i+2 < len(e); i++ {
 		c := e[i]
 		if inStr != 0 {
@@ -114,6 +177,15 @@ func expandSugar(e string) string {
 		}
 	}
 	return e
+}
+
+// expandReturns expands ==> in the expression of "return EXPR" inside a function literal body.
+func expandReturns(body string) string {
+	t := strings.TrimSpace(body)
+	if strings.HasPrefix(t, "return ") && !strings.Contains(t, ";") {
+		return " return " + expandSugar(strings.TrimSpace(t[7:])) + " "
+	}
+	return body
 }
 
 func ParseContracts(fset *token.FileSet, files []*ast.File) *Contracts {
@@ -178,7 +250,7 @@ func ParseContracts(fset *token.FileSet, files []*ast.File) *Contracts {
 					cur = fc
 				case "inv":
 					cs.InvExprs = append(cs.InvExprs, &Clause{Kind: "inv", Expr: expandSugar(rest), Raw: rest, Line: line, File: fname})
-				case "property", "old", "requires", "ensures", "modifies", "trusted", "pure", "inline", "invariant", "decreases", "fresh-result", "owns-lists", "replay-via", "depends-only", "opaque-result", "opaque":
+				case "property", "old", "requires", "ensures", "modifies", "trusted", "pure", "inline", "invariant", "decreases", "fresh-result", "owns-lists", "replay-via", "depends-only", "opaque-result", "opaque", "havoc":
 					if cur == nil {
 						errf("clause outside func")
 						continue
@@ -197,6 +269,12 @@ func ParseContracts(fset *token.FileSet, files []*ast.File) *Contracts {
 						cur.FreshResult = true
 					case "owns-lists":
 						cur.OwnsLists = true
+					case "havoc":
+						if curLoop == nil {
+							errf("havoc outside loop")
+							continue
+						}
+						curLoop.Havoc = append(curLoop.Havoc, strings.Fields(strings.ReplaceAll(rest, ",", " "))...)
 					case "opaque":
 						for _, f := range strings.Split(rest, ",") {
 							if f = strings.TrimSpace(f); f != "" {
